@@ -564,10 +564,6 @@ def oracle(spec: dict, passes: list[str], seed: int, protos=None, raised=None, u
         return [], info
     info["valid"] = True
     bad = []
-    if raised is not None:
-        i, name, et, msg, cause = raised
-        if et != "PreconditionError":
-            bad.append(f"pass-raised: step {i} {name}: {et}({cause}): {msg[:160]}")
     sig0 = io_signature(mp0)
     for i, mp in enumerate(protos[1:]):
         name = passes[i]
@@ -592,6 +588,11 @@ def oracle(spec: dict, passes: list[str], seed: int, protos=None, raised=None, u
             bad.append(f"outputs-differ: step {i} {name}: positions {diff}: before {[np.asarray(ref0[j]).tolist() for j in diff][:2]} "
                        f"after {[np.asarray(ref[j]).tolist() for j in diff][:2]}")
             break
+    if raised is not None and not bad:
+        # (a failure of an earlier step is reported alone: what follows it is a consequence)
+        i, name, et, msg, cause = raised
+        if et != "PreconditionError":
+            bad.append(f"pass-raised: step {i} {name}: {et}({cause}): {msg[:160]}")
     if use_ort and not bad and len(protos) > 1:
         try:
             o0 = G.run_ort(mp0, vals)
